@@ -40,6 +40,9 @@ def network_scenarios(ctx):
         "sched": [schedlib.random_scenario(ctx.rng, k, policy="ANY") for k in schedlib.KINDS for _ in range(n // 6 + 1)],
         "port": [c09.decorate(ctx, c09.random_workload(ctx, red=(i % 3 == 0))) for i in range(n)],
     }
+    for i, sc in enumerate(batches["port"]):
+        if sc["cfg"]["red"] and i % 2 == 0:
+            sc["rawrandom"] = 1000 + i          # unscripted randomness: the program seeds the generator itself
     for driver, scs in batches.items():
         ref = ctx.drive(driver, scs + scs, procs=8, hashseed="0")
         for i, sc in enumerate(scs):
